@@ -22,7 +22,7 @@ class VarRange(MetaHandlerGenerator):
             raise SynthesisException(
                 f"The VarRange metahandler requires a non-empty set of options. Options found: {options}",
             )
-        self.options = options
+        self.options = list(options)  # a copy: the caller may go on using its list (as FloatList, StringSizeBetween)
 
     def validate(self, v) -> bool:
         return v in self.options
